@@ -34,6 +34,8 @@ fn work_root() -> PathBuf {
     root.join(".work").join("c20")
 }
 
+const VIA_MACROS: &str = "macro_rules! via1 { ($($t:tt)*) => { spindalis_macros::parse_simple_polynomial!($($t)*) } }\nmacro_rules! via2 { ($($t:tt)*) => { spindalis::polynomials::parse_intermediate_polynomial!($($t)*) } }\nmacro_rules! viat { ($($t:tt)*) => { spindalis_macros::verif_token_text!($($t)*) } }\n";
+
 const SHOW_FNS: &str = r#"
 fn fb(x: f64) -> String { format!("f{}", x.to_bits()) }
 fn cps(s: &str) -> String { let v: Vec<u32> = s.chars().map(|c| c as u32).collect(); let mut o = format!("{}", v.len()); for c in v { o.push_str(&format!(" {c}")); } o }
@@ -130,6 +132,14 @@ fn runtime(parser: u8, text: &str) -> String {
     }
 }
 
+fn fnv(s: &str) -> u64 {
+    let mut h: u64 = 0xcbf29ce484222325;
+    for b in s.bytes() {
+        h = (h ^ b as u64).wrapping_mul(0x100000001b3);
+    }
+    h
+}
+
 fn strip_ws(s: &str) -> String {
     s.chars().filter(|c| !c.is_whitespace()).collect()
 }
@@ -148,7 +158,20 @@ pub fn run_batch(lines: &[String]) -> Vec<Obs> {
     let job = root.join(format!("job-{}", std::process::id()));
     let target = root.join("target");
     let _ = std::fs::remove_dir_all(&job);
-    let mac = |p: u8| if p == 1 { "parse_simple_polynomial" } else { "parse_intermediate_polynomial" };
+    // both macros are reachable under three paths: the proc-macro crate itself, the re-export in
+    // `spindalis::polynomials`, and the re-exported crate `spindalis::polynomials::macros`; the path is a function of
+    // the text, so that a request always compiles the same program
+    let mac = |p: u8, text: &str| {
+        let name = if p == 1 { "parse_simple_polynomial" } else { "parse_intermediate_polynomial" };
+        match fnv(text) % 5 {
+            0 | 1 => format!("spindalis_macros::{name}"),
+            2 => format!("spindalis::polynomials::{name}"),
+            3 => format!("spindalis::polynomials::macros::{name}"),
+            // forwarded token by token through a declarative macro of the generated crate
+            _ => format!("via{p}"),
+        }
+    };
+    let hook = |text: &str| if fnv(text) % 5 == 4 { "viat" } else { "spindalis_macros::verif_token_text" };
 
     // ---- the invocations that must compile: build and run (excluding, on failure, the lines that did not compile)
     let ok_idx: Vec<usize> = (0..cases.len()).filter(|k| !cases[*k].bad).collect();
@@ -161,15 +184,17 @@ pub fn run_batch(lines: &[String]) -> Vec<Obs> {
             break;
         }
         // one invocation per block; the block's first line is recorded
-        let mut src = String::from(SHOW_FNS);
+        let mut src = String::from(VIA_MACROS);
+        src.push_str(SHOW_FNS);
         src.push_str("fn main() {\n");
         let mut line_of: Vec<(usize, usize, usize)> = Vec::new(); // (case, first line, last line)
         let mut line = src.lines().count();
         for &k in &active {
             let c = &cases[k];
             let block = format!(
-                "{{ let v = spindalis_macros::{m}!({t}\n); let t = spindalis_macros::verif_token_text!({t}\n); println!(\"{k}\\t{{}}\\t{{}}\", show{p}(&v), cps(t)); }}\n",
-                m = mac(c.parser),
+                "{{ let v = {m}!({t}\n); let t = {h}!({t}\n); println!(\"{k}\\t{{}}\\t{{}}\", show{p}(&v), cps(t)); }}\n",
+                m = mac(c.parser, &c.text),
+                h = hook(&c.text),
                 t = c.text,
                 p = c.parser
             );
@@ -215,30 +240,64 @@ pub fn run_batch(lines: &[String]) -> Vec<Obs> {
         active.retain(|k| !failed.contains(k));
     }
 
-    // ---- the invocations that must NOT compile: one per line, `cargo check`, diagnostics matched to lines
+    // ---- the invocations that must NOT compile: `cargo check`, diagnostics matched to lines.  Each bad invocation
+    //      stands between two correct ones on the adjacent lines of the same function: the error must be reported at
+    //      the bad one and only there
     let bad_idx: Vec<usize> = (0..cases.len()).filter(|k| cases[*k].bad).collect();
     let mut bad_err: Vec<Option<String>> = vec![None; cases.len()];
-    if !bad_idx.is_empty() {
-        let mut src = String::from("fn main() {}\n");
+    let mut neighbour_err: Vec<bool> = vec![false; cases.len()];
+    const PER: usize = 5;
+    // a diagnostic that is not the macro's own (a lexer error, a panic inside the macro) can be fatal for the whole
+    // file and hide the errors of the other invocations: those cases keep their verdict and the rest is checked again
+    let mut active_bad = bad_idx.clone();
+    for _round in 0..4 {
+        if active_bad.is_empty() {
+            break;
+        }
+        let mut src = String::from(VIA_MACROS);
+        src.push_str("fn main() {}\n");
         let header = src.lines().count();
-        for (j, &k) in bad_idx.iter().enumerate() {
+        for (j, &k) in active_bad.iter().enumerate() {
             let c = &cases[k];
             let one_line: String = c.text.chars().map(|ch| if ch == '\n' || ch == '\r' { ' ' } else { ch }).collect();
-            let _ = writeln!(src, "fn bad_{j}() {{ let _ = spindalis_macros::{}!({}); }}", mac(c.parser), one_line);
+            let (g1, g2) = match j % 3 {
+                0 => ("spindalis_macros::parse_simple_polynomial!(2x^2 - 3.5x + 1)", "spindalis::polynomials::parse_intermediate_polynomial!(x^2y - 1/2y^-1 + 4)"),
+                1 => ("spindalis::polynomials::parse_intermediate_polynomial!(3xy^0.5 - z)", "spindalis::polynomials::macros::parse_simple_polynomial!(t^3 - 0.125)"),
+                _ => ("spindalis::polynomials::parse_simple_polynomial!(-x + 7)", "spindalis_macros::parse_intermediate_polynomial!(a^2 + 2ab + b^2)"),
+            };
+            let _ = writeln!(src, "fn bad_{j}() {{\n    let _a = {g1};\n    let _b = {}!({});\n    let _c = {g2};\n}}", mac(c.parser, &c.text), one_line);
         }
         let dir = job.join("bad");
         write_crate(&dir, &src);
         let (_built, json) = cargo(&dir, &target, &["check"]);
+        let mut foreign: Vec<usize> = Vec::new();
         for (ln, kind) in error_lines(&json) {
-            if ln > header && ln - header - 1 < bad_idx.len() {
-                let k = bad_idx[ln - header - 1];
-                if bad_err[k].is_none() || kind.is_some() {
-                    bad_err[k] = Some(kind.unwrap_or("other").to_string());
+            if ln > header && (ln - header - 1) / PER < active_bad.len() {
+                let k = active_bad[(ln - header - 1) / PER];
+                match (ln - header - 1) % PER {
+                    2 => {
+                        if bad_err[k].is_none() || kind.is_some() {
+                            bad_err[k] = Some(kind.unwrap_or("other").to_string());
+                        }
+                        if kind.is_none() {
+                            foreign.push(k);
+                        }
+                    }
+                    1 | 3 => neighbour_err[k] = true,
+                    _ => {}
                 }
             }
         }
+        let silent = active_bad.iter().any(|k| bad_err[*k].is_none());
+        foreign.retain(|k| bad_err[*k].as_deref() == Some("other"));
+        if foreign.is_empty() || !silent {
+            break;
+        }
+        active_bad.retain(|k| bad_err[*k].is_none());
     }
-    let _ = std::fs::remove_dir_all(&job);
+    if std::env::var("VERIF_C20_KEEP").is_err() {
+        let _ = std::fs::remove_dir_all(&job);
+    }
     // this job's own artefacts in the shared target directory
     let mine = format!("c20case{}", std::process::id());
     for sub in ["debug", "debug/deps", "debug/incremental", "debug/.fingerprint"] {
@@ -260,7 +319,9 @@ pub fn run_batch(lines: &[String]) -> Vec<Obs> {
             let (obs, verdict) = match &bad_err[k] {
                 Some(kind) => {
                     let obs = format!("err {kind}");
-                    let v = if rt == obs {
+                    let v = if neighbour_err[k] {
+                        Err("a correct invocation on the line next to the rejected one was reported as an error too".to_string())
+                    } else if rt == obs {
                         Ok(())
                     } else if rt.starts_with("err") {
                         Err(format!("compile error {kind} but the runtime parser says {rt}"))
@@ -303,7 +364,17 @@ pub fn run(line: &str) -> Obs {
 
 /// does the text tokenize as Rust?  (no literal starting with 0x / 0b / 0o, no digit directly followed by e/E)
 fn tokenizes(text: &str) -> bool {
+    // comment openers, and the prefixes reserved since Rust 2021 (`x#`, `x"`, `x'`): a lexer error is fatal for the
+    // whole generated file, so such a text would hide every other diagnostic
+    if text.contains("//") || text.contains("/*") {
+        return false;
+    }
     let cs: Vec<char> = text.chars().collect();
+    for w in cs.windows(2) {
+        if (w[0].is_alphanumeric() || w[0] == '_') && (w[1] == '#' || w[1] == '"' || w[1] == '\'') {
+            return false;
+        }
+    }
     for i in 0..cs.len() {
         let c = cs[i];
         if i + 1 < cs.len() {
@@ -333,7 +404,7 @@ fn ascii_ws(rng: &mut Rng) -> &'static str {
 }
 
 fn gen_simple(rng: &mut Rng, target_len: usize) -> String {
-    let var = *rng.pick(&['x', 'y', 't', 'z', 'a', 'λ', 'é']);
+    let var = *rng.pick(&['x', 'y', 't', 'z', 'a', 'λ', 'é', 'я', 'ß', 'Ω', 'X', 'Q', 'k', 'w', 'R', 'u']);
     let mut s = String::new();
     let mut first = true;
     while s.len() < target_len || first {
@@ -358,7 +429,19 @@ fn gen_simple(rng: &mut Rng, target_len: usize) -> String {
 }
 
 fn gen_inter(rng: &mut Rng, target_len: usize) -> String {
-    let pool = ['x', 'y', 'z', 'a'];
+    let all = ['x', 'y', 'z', 'a', 'c', 'd', 'k', 'm', 'n', 'p', 'q', 'r', 's', 't', 'u', 'v', 'w', 'A', 'B', 'C', 'X', 'Y', 'Z', 'f', 'i', 'l'];
+    let mut pool = ['x', 'y', 'z', 'a'];
+    if rng.chance(1, 2) {
+        for slot in pool.iter_mut() {
+            *slot = *rng.pick(&all);
+        }
+        // distinct letters only
+        for i in 0..pool.len() {
+            while pool[..i].contains(&pool[i]) {
+                pool[i] = *rng.pick(&all);
+            }
+        }
+    }
     let mut terms = Vec::new();
     let mut len = 0;
     while len < target_len || terms.is_empty() {
@@ -381,7 +464,7 @@ fn gen_bad(rng: &mut Rng, parser: u8) -> String {
         0 => format!("{base} +"),
         1 => format!("{base} - - 4"),
         2 => format!("{base} * 3"),
-        3 => format!("2 {} 3", if parser == 1 { "xy" } else { "x#" }),
+        3 => format!("2 {} 3", if parser == 1 { "xy" } else { "x #" }),
         4 => format!("{base} ^ ^ 2"),
         5 => format!("+ + {base}"),
         _ => format!("{base} / /"),
@@ -427,6 +510,7 @@ pub fn generate(seed: u64, thorough: bool, emit: &mut dyn FnMut(String)) {
             emit(format!("m{parser} {}", req_string(&text)));
         }
     }
+    generate_hardening(seed, thorough, emit);
     let m = if thorough { 600 } else { 60 };
     for i in 0..m {
         let parser = 1 + (i % 2) as u8;
@@ -439,5 +523,178 @@ pub fn generate(seed: u64, thorough: bool, emit: &mut dyn FnMut(String)) {
         // only texts the runtime parser really rejects are "bad" requests
         let rejected = runtime(parser, &text).starts_with("err");
         emit(format!("{}{parser} {}", if rejected { "bad" } else { "m" }, req_string(&text)));
+    }
+}
+
+// ------------------------------------------------------------------------------------ hardening families
+
+fn digits(rng: &mut Rng, lo: usize, extra: u64) -> String {
+    let n = lo + if extra > 0 { rng.below(extra) as usize } else { 0 };
+    let mut d: String = (0..n).map(|_| char::from(b'0' + rng.below(10) as u8)).collect();
+    if d.starts_with('0') {
+        d.replace_range(0..1, "3");
+    }
+    d
+}
+
+/// a decimal with many significant digits (never beyond the binary64 range: see the note in `generate_hardening`)
+fn long_decimal(rng: &mut Rng) -> String {
+    match rng.below(5) {
+        0 => digits(rng, 15, 12),
+        1 => format!("{}.{}", digits(rng, 1, 4), digits(rng, 15, 10)),
+        2 => format!("0.{}{}", "0".repeat(rng.below(40) as usize), digits(rng, 15, 6)),
+        3 => format!("{}{}", digits(rng, 17, 0), "0".repeat(rng.below(200) as usize)),
+        _ => format!("{}.{}", digits(rng, 16, 40), digits(rng, 3, 0)),
+    }
+}
+
+fn emit_case(emit: &mut dyn FnMut(String), parser: u8, text: &str) {
+    if !tokenizes(text) {
+        return;
+    }
+    // only texts the runtime parser really rejects are "bad" requests
+    let rejected = runtime(parser, text).starts_with("err");
+    emit(format!("{}{parser} {}", if rejected { "bad" } else { "m" }, req_string(text)));
+}
+
+fn generate_hardening(seed: u64, thorough: bool, emit: &mut dyn FnMut(String)) {
+    let mut rng = Rng::new(seed ^ 0xC20_5CA1E);
+    // ---- (1) inputs of 700..2000 characters (the token printer re-flows them over many lines)
+    let n = if thorough { 120 } else { 12 };
+    for i in 0..n {
+        let target = [700usize, 1000, 1400, 2000][i % 4];
+        let parser = 1 + ((i / 4) % 2) as u8;
+        let text = loop {
+            let t = if parser == 1 { gen_simple(&mut rng, target) } else { gen_inter(&mut rng, target) };
+            if tokenizes(&t) {
+                break t;
+            }
+        };
+        emit(format!("m{parser} {}", req_string(&text)));
+    }
+    // ---- (2) numbers with 15 and more digits in every position: coefficients, both parts of a fraction, exponents, both
+    //      parts of a fractional exponent; exponents of extreme magnitude (1e-300 .. 1e300); the largest power of the dense
+    //      univariate form.
+    //      NOT generated: literals beyond the binary64 range ("1" followed by 400 zeros).  The runtime parsers return
+    //      +-inf (NaN for inf/inf) for them while the macros print `inf` / `NaN` into the expansion, which does not
+    //      compile — a genuine deviation of the unchanged repository from the statement, reported separately.
+    let n = if thorough { 400 } else { 48 };
+    for i in 0..n {
+        let v = *rng.pick(&['x', 'y', 'q', 'T', 'k']);
+        let w = *rng.pick(&['a', 'b', 'z', 'N']);
+        let sign = |rng: &mut Rng| if rng.chance(1, 2) { "-" } else { "" };
+        if i % 3 == 0 {
+            // univariate
+            let mut s = String::new();
+            for t in 0..(2 + rng.below(4)) {
+                s.push_str(if rng.chance(1, 2) { " - " } else if t > 0 { " + " } else { "" });
+                s.push_str(&long_decimal(&mut rng));
+                match rng.below(4) {
+                    0 => {}
+                    1 => s.push(v),
+                    _ => s.push_str(&format!("{v}^{}{}", "0".repeat(rng.below(25) as usize), rng.below(40))),
+                }
+            }
+            emit_case(emit, 1, &s);
+        } else {
+            let mut s = String::new();
+            for t in 0..(2 + rng.below(4)) {
+                s.push_str(if rng.chance(1, 2) { " - " } else if t > 0 { " + " } else { "" });
+                match rng.below(4) {
+                    0 => s.push_str(&long_decimal(&mut rng)),
+                    1 => s.push_str(&format!("{}/{}", digits(&mut rng, 15, 8), digits(&mut rng, 15, 8))),
+                    2 => s.push_str(&format!("{}/{}", long_decimal(&mut rng), long_decimal(&mut rng))),
+                    _ => s.push_str(&format!("{}/{}", rng.range(1, 9), digits(&mut rng, 18, 0))),
+                }
+                let e1 = match rng.below(7) {
+                    0 => format!("^{}{}", sign(&mut rng), digits(&mut rng, 15, 25)),
+                    1 => format!("^{}0.{}{}", sign(&mut rng), "0".repeat(20 + rng.below(280) as usize), rng.range(1, 9)),
+                    2 => format!("^{}{}{}", sign(&mut rng), rng.range(1, 9), "0".repeat(20 + rng.below(280) as usize)),
+                    3 => format!("^{}{}/{}", sign(&mut rng), digits(&mut rng, 15, 6), digits(&mut rng, 15, 6)),
+                    4 => format!("^{}{}", sign(&mut rng), long_decimal(&mut rng)),
+                    5 => String::new(),
+                    _ => format!("^{}", rng.range(2, 9)),
+                };
+                s.push_str(&format!("{v}{e1}"));
+                if rng.chance(1, 2) {
+                    s.push_str(&format!("{w}^{}{}.{}", sign(&mut rng), rng.below(4), digits(&mut rng, 17, 0)));
+                }
+            }
+            emit_case(emit, 2, &s);
+        }
+    }
+    for text in ["x^65536 + 1", "3y^65535 - y", "2t^0065536", "x^4096 - x^4095", "x^65537", "x^65536x", "x^4294967296", "x^18446744073709551616"] {
+        if thorough || !text.contains("6553") || text == "x^65537" || text == "x^65536 + 1" {
+            emit_case(emit, 1, text);
+        }
+    }
+    // ---- (2b) signed zeros and cancelling sums; one coefficient / exponent per decade 1e-320 .. 1e308 (the Debug
+    //      spelling of a float changes form at 1e-5 and 1e16)
+    for (parser, text) in [
+        (1u8, "-0x + 0"), (1, "-0.0x^2 - 0"), (1, "x - x"), (1, "-x + x - 0"), (1, "0 - 0x^3"), (1, "-0"), (1, "2.5x^2 - 2.5x^2 + 0x"),
+        (2, "-0x + 0y"), (2, "-0.0x^2y - 0"), (2, "x - x"), (2, "-0/5x"), (2, "0/7xy^-0"), (2, "x^-0 + y^0.0 - z^-0.0"), (2, "-0"), (2, "x^0/5"),
+    ] {
+        emit_case(emit, parser, text);
+    }
+    let decades: Vec<i32> = (-320..=308).collect();
+    let per = if thorough { 1 } else { 4 };
+    for chunk in decades.chunks(16) {
+        let mut t1 = String::new();
+        let mut t2 = String::new();
+        for (j, e) in chunk.iter().enumerate() {
+            if j % per != (seed as usize) % per {
+                continue;
+            }
+            // (9e308 is beyond the binary64 range: see the note above)
+            let d = if *e == 308 { 1 } else { rng.range(1, 9) };
+            let lit = if *e < 0 { format!("0.{}{d}", "0".repeat((-e - 1) as usize)) } else { format!("{d}{}", "0".repeat(*e as usize)) };
+            let sg = if rng.chance(1, 2) { "-" } else { "+" };
+            t1.push_str(&format!(" {sg} {lit}x^{}", j + 1));
+            t2.push_str(&format!(" {sg} {lit}x^{}{lit}y", if rng.chance(1, 2) { "-" } else { "" }));
+        }
+        emit_case(emit, 1, t1.trim_start_matches(" +"));
+        emit_case(emit, 2, t2.trim_start_matches(" +"));
+    }
+    // ---- (3) invalid texts of every error KIND the runtime parsers can produce; each alone and inside a longer correct
+    //      polynomial.  The compile error's message must carry the same kind.
+    let bad1: [&str; 30] = [
+        // PolynomialSyntaxError
+        "x + + 1", "2x - - 4", "2x^2 +", "- - x", "x + 1 -", "+ + x",
+        // InvalidCoefficient
+        "2*x + 1", "2/3x - 1", "1.2.3x^2", "..5x", "2 3 . . x", "4.x.x",
+        // InvalidExponent
+        "x^2.5", "x^65537", "x^ + 1", "x^y", "3x^-2", "x^99999999999999999999", "x^1/2",
+        // UnexpectedChar
+        "x2 + 1", "2xy - 1", "x*2", "x.5", "xx", "2x x",
+        // InvalidConstant
+        "x + 3/4", "x - 1.2.3", "2 * 3 + x", "7/2", "x^2 + 5.5.5",
+    ];
+    let bad2: [&str; 34] = [
+        // PolynomialSyntaxError
+        "x + + y", "2xy - - 4", "2x^2 +", "- - xy", "x + y -", "+ + x",
+        // InvalidFraction
+        "1/2/3x", "1/0x + y", "/2x", "3/x", "1/ /2y", "5/0.0z",
+        // InvalidCoefficient
+        "1.2.3xy", "..5x", "4..x", "0.1.y + 2", "1.5.2", "2.2.x^2y",
+        // InvalidFractionalExponent
+        "x^1/0", "x^1/2/3", "xy^3/0.0", "2x^/2", "x^1/ /2", "x^2/",
+        // InvalidExponent
+        "x^ + 1", "x^1.2.3", "xy^.", "2x^..", "x^-", "x^-.-",
+        // UnexpectedChar
+        "x*y", "x 5", "2x^2^3", "x.y",
+    ];
+    let goods1 = ["2x^2 - 3.5x + 1", "x^3", "0.125 - x", "7"];
+    let goods2 = ["x^2y - 1/2y^-1 + 4", "xy", "3.25a^0.5 - b", "1/3"];
+    for (parser, frags, goods) in [(1u8, &bad1[..], &goods1[..]), (2u8, &bad2[..], &goods2[..])] {
+        for (fi, f) in frags.iter().enumerate() {
+            emit_case(emit, parser, f);
+            if thorough || fi % 2 == seed as usize % 2 {
+                let g = goods[fi % goods.len()];
+                let h = goods[(fi + 1) % goods.len()];
+                emit_case(emit, parser, &format!("{g} + {f}"));
+                emit_case(emit, parser, &format!("{f} - {h}"));
+                emit_case(emit, parser, &format!("{g} - {f} + {h}"));
+            }
+        }
     }
 }
